@@ -16,6 +16,7 @@ package snapshot
 //     observer filter callback); the reader count returns to zero; no panic.
 
 import (
+	"hash/fnv"
 	"bytes"
 	"errors"
 	"fmt"
@@ -118,6 +119,8 @@ func c11State(s *Store, streams []*LockingStreamer) string {
 	return fmt.Sprintf("%d %d %d", nr, held, open)
 }
 
+var c11LastOps []string // ops of the sequence in progress (for the replay of a panic)
+
 func c11SeqA(t *testing.T, rep *vfReport, r *vfRng, n int) (ops, out []string) {
 	s := c11NewStore(t)
 	defer s.Close()
@@ -126,6 +129,7 @@ func c11SeqA(t *testing.T, rep *vfReport, r *vfRng, n int) (ops, out []string) {
 	emit := func(op, res string) {
 		ops = append(ops, op)
 		out = append(out, res)
+		c11LastOps = ops
 	}
 	replay := func() map[string]interface{} { return map[string]interface{}{"ops": append([]string(nil), ops...)} }
 	var streams []*LockingStreamer
@@ -133,7 +137,22 @@ func c11SeqA(t *testing.T, rep *vfReport, r *vfRng, n int) (ops, out []string) {
 	aux, hold := 0, false
 	for i := 0; i < n; i++ {
 		clk += 10
-		switch k := r.Intn(16); {
+		switch k := r.Intn(17); {
+		case k == 16: // Open of an id that does not exist: must fail and must give the read lock back
+			before := c11NR(s)
+			_, rc, err := s.Open("9-9999-1700000000000")
+			switch {
+			case err == nil:
+				rc.Close()
+				t.Fatalf("open of a non-existent snapshot succeeded")
+			case strings.Contains(err.Error(), "acquiring read lock"):
+				emit("openfail", "conflict")
+			default:
+				emit("openfail", "error")
+			}
+			if after := c11NR(s); after != before {
+				rep.Fail("failed-open-keeps-read-lock", fmt.Sprintf("reader count %d -> %d across a failed Open (%v)", before, after, err), replay())
+			}
 		case k < 3: // open
 			timeout := int64(0)
 			if r.Chance(60) {
@@ -167,8 +186,14 @@ func c11SeqA(t *testing.T, rep *vfReport, r *vfRng, n int) (ops, out []string) {
 			}
 			j := r.Intn(len(streams))
 			before := c11NR(s)
+			c11LastOps = append(append([]string(nil), ops...), fmt.Sprintf("close %d   <- panicked here", j))
+			wasClosed := streams[j].closed.Is()
 			if err := streams[j].Close(); err != nil {
-				t.Fatalf("close: %v", err)
+				sig := "close-returned-error"
+				if wasClosed {
+					sig = "repeated-close-not-idempotent"
+				}
+				rep.Fail(sig, fmt.Sprintf("Close on stream %d (already closed: %v) returned %v", j, wasClosed, err), replay())
 			}
 			res := "noop"
 			if c11NR(s) == before-1 {
@@ -200,6 +225,7 @@ func c11SeqA(t *testing.T, rep *vfReport, r *vfRng, n int) (ops, out []string) {
 				emit(fmt.Sprintf("read %d %d 1", j, clk), c11ReadClass(l.timedOut.Is()))
 				mnow = clk + 7
 			}
+			c11LastOps = append(append([]string(nil), ops...), fmt.Sprintf("idle %d %d   <- panicked here", j, mnow))
 			l.checkIdle()
 			res := "noop"
 			switch {
@@ -311,22 +337,119 @@ func c11ReadClass(timedOut bool) string {
 	return "ok"
 }
 
+// c11SlowRC is an underlying stream whose Close blocks until released: it holds the window
+// between "decided to close" and "closed" open, so that the other closing path arrives
+// inside it (fault-injecting ReadCloser; no hook in the code under test).
+type c11SlowRC struct {
+	entered chan struct{} // one token per Close call that has started
+	release chan struct{} // closed to let Close calls finish
+	closes  atomic.Int64
+}
+
+func (c *c11SlowRC) Read(p []byte) (int, error) { return 0, io.EOF }
+func (c *c11SlowRC) Close() error {
+	c.closes.Add(1)
+	c.entered <- struct{}{}
+	<-c.release
+	return nil
+}
+
+// c11Overlap: one closing path (idle callback or consumer Close) is inside the underlying
+// Close when the other one arrives. Exactly one release must result.
+func c11Overlap(t *testing.T, rep *vfReport, timerFirst bool) (ops, out []string) {
+	s := c11NewStore(t)
+	defer s.Close()
+	ops = []string{"reset", "aux+", "open 3600000000000 1"}
+	out = []string{"ok", "ok", "ok 0"}
+	if err := s.mrsw.BeginRead(); err != nil { // another reader, so that a double release is visible in the count instead of a panic
+		t.Fatalf("aux reader: %v", err)
+	}
+	if err := s.mrsw.BeginRead(); err != nil { // what Store.Open does before it builds the streamer
+		t.Fatalf("stream reader: %v", err)
+	}
+	rc := &c11SlowRC{entered: make(chan struct{}, 8), release: make(chan struct{})}
+	l := NewLockingStreamer(rc, s, time.Hour)
+	first, second := make(chan struct{}), make(chan struct{})
+	run := func(idle bool, done chan struct{}) {
+		defer close(done)
+		if idle {
+			l.lastRead.Store(time.Now().Add(-2 * time.Hour).UnixNano()) // idle for longer than the timeout
+			l.checkIdle()
+		} else {
+			l.Close()
+		}
+	}
+	go run(timerFirst, first)
+	select {
+	case <-rc.entered: // the first path is now inside the underlying Close
+	case <-time.After(20 * time.Second):
+		t.Fatalf("first closing path never reached the underlying Close")
+	}
+	go run(!timerFirst, second)
+	// give the second path time to either block (correct) or run through to the underlying Close (wrong)
+	select {
+	case <-rc.entered:
+	case <-time.After(30 * time.Millisecond):
+	}
+	close(rc.release)
+	<-first
+	<-second
+	nr := c11NR(s)
+	replay := map[string]interface{}{"idle_callback_first": timerFirst, "underlying_close_calls": rc.closes.Load(), "reader_count_after": nr, "reader_count_expected": 1}
+	if rc.closes.Load() != 1 {
+		rep.Fail("stream-underlying-closed-twice", fmt.Sprintf("Close and the idle callback overlapped (idle callback first: %v): the underlying stream was closed %d times", timerFirst, rc.closes.Load()), replay)
+	}
+	if nr != 1 {
+		rep.Fail("stream-released-its-hold-twice", fmt.Sprintf("Close and the idle callback overlapped (idle callback first: %v): reader count is %d with one other reader still inside (expected 1)", timerFirst, nr), replay)
+	}
+	a, b := "idle 0 7300000000000", "close 0"
+	ra, rb := "forced", "noop"
+	if !timerFirst {
+		a, b = "close 0", "idle 0 7300000000000"
+		ra, rb = "released", "noop"
+	}
+	ops = append(ops, "read 0 2 1", a, b, "state")
+	out = append(out, "ok", ra, rb, fmt.Sprintf("%d 0 0", nr))
+	if nr >= 1 {
+		s.mrsw.EndRead()
+	}
+	return
+}
+
 func TestVerifC11(t *testing.T) {
-	rep := vfNewReport("C11", "A: sequential op sequences (30-120 ops) on a real snapshot store with a full and an incremental snapshot: open (idle timeout 0 or 1 h), read, Close, repeated Close, idle callback with expired / fresh last-read time, short readers, Store.Reap, held write lock; non-trivial when a forced close, a repeated Close and a refused Reap all occurred; B: 3-6 reader goroutines x 4-10 streams each (4 ms idle timeout, stalls, double and concurrent Close) against a reaper adding 3 incrementals and reaping through Reap() and the blocking reapLoop")
+	rep := vfNewReport("C11", "A: sequential op sequences (30-120 ops) on a real snapshot store with a full and an incremental snapshot: open (idle timeout 0 or 1 h), read, Close, repeated Close, idle callback with expired / fresh last-read time, short readers, failing Open, Store.Reap, held write lock; non-trivial when a forced close, a repeated Close and a refused Reap all occurred; B: 3-6 reader goroutines x 4-10 streams each (4 ms idle timeout, stalls, double and concurrent Close) against a reaper adding 3 incrementals and reaping through Reap() and the blocking reapLoop; C: real 25-55 ms idle timers with one read before the stall")
 	// if the process dies (e.g. the \"reader count went negative\" panic in a timer goroutine) this report stays
-	rep.Fail("process-crashed-during-run", "the test process ended before the run finished (panic in a non-test goroutine?)", nil)
-	rep.Write()
-	rep.OracleFailures = nil
+	// checkpoint: what has been found so far plus the crash marker is on disk at all times; the
+	// final Write (deferred) replaces it with the report without the marker
+	checkpoint := func() {
+		n := len(rep.OracleFailures)
+		rep.OracleFailures = append(rep.OracleFailures, vfOracleFailure{"process-crashed-during-run", "the test process ended before the run finished (panic in a non-test goroutine, e.g. MultiRSW's \"reader count went negative\" out of a double release?)", nil})
+		rep.Write()
+		rep.OracleFailures = rep.OracleFailures[:n]
+	}
+	checkpoint()
 	defer rep.Write()
+	defer func() {
+		// a panic on the test goroutine (e.g. MultiRSW's "reader count went negative" out of a
+		// second release) is a property failure, not a harness failure
+		if p := recover(); p != nil {
+			rep.Fail("panic:"+fmt.Sprint(p), fmt.Sprintf("the snapshot store panicked: %v", p), map[string]interface{}{"ops": c11LastOps})
+			t.Errorf("panic: %v", p)
+		}
+	}()
 	r := vfNewRng(11)
 	var allOps, allImpl [][]string
-	nA := vfScale(120, 3000)
+	nA := vfScale(70, 7000)
 	for i := 0; i < nA; i++ {
 		ops, out := c11SeqA(t, rep, r, 30+r.Intn(vfScale(91, 200)))
 		allOps = append(allOps, ops)
 		allImpl = append(allImpl, out)
 		j := strings.Join(out, " ")
-		rep.Case(strings.Join(ops, ";"), strings.Contains(j, "forced") && strings.Contains(j, "noop") && strings.Contains(j, "conflict"))
+		if len(allOps) >= 2000 { // compare in chunks (memory, thorough tier)
+			rep.vfCompareSegments("streamer", allOps, allImpl)
+			allOps, allImpl = nil, nil
+		}
+		rep.Case(c11Key(ops), strings.Contains(j, "forced") && strings.Contains(j, "noop") && strings.Contains(j, "conflict"))
 		for _, k := range []string{"forced", "rearmed", "released", "noop", "conflict", "timeout-error"} {
 			rep.CountN("A:"+k, strings.Count(j, k))
 		}
@@ -335,9 +458,19 @@ func TestVerifC11(t *testing.T) {
 		}
 	}
 
+	// ---- overlap of the two closing paths (slow underlying Close) ----------------------
+	for i := 0; i < vfScale(4, 40); i++ {
+		ops, out := c11Overlap(t, rep, i%2 == 0)
+		allOps = append(allOps, ops)
+		allImpl = append(allImpl, out)
+		rep.Case(fmt.Sprintf("overlap:%d", i%2), i < 2)
+		rep.Count("overlapping-close-and-idle-callback")
+	}
+
 	// ---- B -------------------------------------------------------------------------
-	nB := vfScale(6, 120)
+	nB := vfScale(6, 400)
 	for run := 0; run < nB; run++ {
+		checkpoint()
 		s := c11NewStore(t)
 		s.SetReadTimeout(4 * time.Millisecond)
 		s.SetReapThreshold(2)
@@ -516,5 +649,91 @@ func TestVerifC11(t *testing.T) {
 		rep.CountN("B:reaps-observed", int(reaps.Load()))
 		rep.CountN("B:explicit-reaps-succeeded", int(explicitReaps.Load()))
 	}
+	// ---- C: real idle timers ------------------------------------------------------------
+	// a consumer reads once some time after opening (so the first timer firing finds the
+	// stream not yet idle long enough and must re-arm), then stalls: the stream must be
+	// force-closed, not before lastRead+timeout, and the reaper must then get the lock.
+	{
+		nC := vfScale(6, 60)
+		var wg sync.WaitGroup
+		for i := 0; i < nC; i++ {
+			timeout := time.Duration(25+r.Intn(30)) * time.Millisecond
+			readAfter := time.Duration(5+r.Intn(15)) * time.Millisecond
+			wg.Add(1)
+			go func(i int) {
+				defer wg.Done()
+				s := c11NewStore(t)
+				defer s.Close()
+				s.SetReadTimeout(timeout)
+				_, rc, err := s.Open(c11Newest(s))
+				if err != nil {
+					t.Errorf("open: %v", err)
+					return
+				}
+				l := rc.(*LockingStreamer)
+				start := time.Now()
+				time.Sleep(readAfter)
+				tRead := time.Since(start) // measured BEFORE the read: the recorded last-read time is not earlier
+				n, rerr := rc.Read(make([]byte, 16))
+				replay := map[string]interface{}{"timeout_ns": int64(timeout), "read_after_ns": int64(readAfter), "run": i}
+				if rerr != nil || n == 0 {
+					// the machine was so slow that the stream idled out before our read: nothing to judge
+					rep.Count("C:inconclusive-slow-machine")
+					rc.Close()
+					return
+				}
+				forced := false
+				var tObs time.Duration
+				for dl := time.Now().Add(20 * time.Second); time.Now().Before(dl); time.Sleep(500 * time.Microsecond) {
+					if l.closed.Is() {
+						forced, tObs = true, time.Since(start)
+						break
+					}
+				}
+				if !forced {
+					rep.Fail("stalled-stream-never-force-closed", fmt.Sprintf("idle timeout %v, last read at %v: still open after 20 s", timeout, tRead), replay)
+					rc.Close()
+					return
+				}
+				if tObs < tRead+timeout {
+					rep.Fail("stream-force-closed-before-idle-timeout", fmt.Sprintf("idle timeout %v, last read not before %v, closed already at %v", timeout, tRead, tObs), replay)
+				}
+				if !l.timedOut.Is() {
+					rep.Fail("force-closed-stream-not-marked-timed-out", "", replay)
+				}
+				// the reaper can proceed now (the release happens right after the flag is set)
+				ok := false
+				for dl := time.Now().Add(10 * time.Second); time.Now().Before(dl); time.Sleep(200 * time.Microsecond) {
+					if _, _, err := s.Reap(); err == nil {
+						ok = true
+						break
+					}
+				}
+				if !ok {
+					rep.Fail("reaper-blocked-after-forced-close", "Reap still refused 10 s after the stalled stream was force-closed", replay)
+				}
+				if _, err := rc.Read(make([]byte, 8)); !errors.Is(err, ErrSnapshotReaderTimeout) {
+					rep.Fail("read-after-forced-close-not-timeout-error", fmt.Sprint(err), replay)
+				}
+				rc.Close() // must be a no-op
+				if nr := c11NR(s); nr != 0 {
+					rep.Fail("reader-count-not-zero-after-all-closed", fmt.Sprint(nr), replay)
+				}
+				rep.Case(fmt.Sprintf("C:%d", i), true)
+				rep.Count("C:stalled-streams-force-closed")
+			}(i)
+		}
+		wg.Wait()
+	}
 	rep.vfCompareSegments("streamer", allOps, allImpl)
+}
+
+// c11Key identifies an op sequence by a 64-bit hash (keeps the distinct-case set small).
+func c11Key(ops []string) string {
+	h := fnv.New64a()
+	for _, o := range ops {
+		h.Write([]byte(o))
+		h.Write([]byte{'\n'})
+	}
+	return fmt.Sprintf("%016x", h.Sum64())
 }
